@@ -23,8 +23,14 @@ class Unk(object):
     def __repr__(self): return '<unknown %s>' % self.t
 UI, US = Unk('int'), Unk('str')
 
+class CaseOf(Unk):
+    """a string known up to the case of its letters: change.case$ changes case only -- every other character, white
+    space included, stays where it is"""
+    def __init__(self, s): Unk.__init__(self, 'str'); self.s = s
+    def __repr__(self): return '<%r up to letter case>' % self.s
+
 def is_int(v): return (isinstance(v, int) and not isinstance(v, bool)) or v is UI
-def is_str(v): return isinstance(v, str) or v is US
+def is_str(v): return isinstance(v, str) or v is US or isinstance(v, CaseOf)
 def known(v): return not isinstance(v, Unk)
 
 BUILTIN_NAMES = {'>', '<', '=', '*', ':=', '+', '-', 'add.period$', 'call.type$', 'change.case$', 'chr.to.int$', 'cite$',
@@ -32,6 +38,28 @@ BUILTIN_NAMES = {'>', '<', '=', '*', ':=', '+', '-', 'add.period$', 'call.type$'
                  'num.names$', 'pop$', 'preamble$', 'purify$', 'quote$', 'skip$', 'substring$', 'stack$', 'swap$',
                  'text.length$', 'text.prefix$', 'top$', 'type$', 'warning$', 'while$', 'width$', 'write$'}
 TEX = set('{}\\')
+
+def ref_change_case(s, mode):
+    """change.case$ from the documentation: t = lower case except the first character (and the first after a colon
+    and white space), l = lower case, u = upper case, only outside braces and inside special characters; nothing but
+    the case of letters ever changes.  Exact for strings without braces, backslashes and colons; otherwise the result is
+    known up to letter case."""
+    if not (known(s) and known(mode)) or not mode or mode[0].lower() not in 'lut':
+        return US
+    if not all(len(c.lower()) == 1 and len(c.upper()) == 1 for c in s):
+        return US
+    try:
+        from props import c12
+        if c12.ends_in_open_special(s):
+            return US
+    except Exception:
+        return US
+    if set(s) & set('{}\\:'):
+        return CaseOf(s)
+    m = mode[0].lower()
+    if m == 'l': return s.lower()
+    if m == 'u': return s.upper()
+    return s[:1] + s[1:].lower()
 
 def ref_text_length(s):
     """btxhak: text.length$ counts characters; braces do not count, a special character (a group at brace depth 0
@@ -168,7 +196,8 @@ class Ref(object):
                 if core == '': raise Abstain('all braces')
                 st.append(s if core[-1] in '.?!' else s + '.')
         elif b in ('change.case$',):
-            self.pop(is_str); self.pop(is_str); self.opaque = True; st.append(US)
+            mode = self.pop(is_str); s = self.pop(is_str); self.opaque = True
+            st.append(ref_change_case(s, mode))
         elif b == 'purify$':
             self.pop(is_str); self.opaque = True; st.append(US)
         elif b == 'width$':
@@ -226,9 +255,11 @@ class Ref(object):
             else: st.append('')
         elif b == 'text.length$':
             s = self.pop(is_str)
+            if known(s) and (set(s) & TEX): self.opaque = True      # nesting deeper than 100 is a legitimate BibTeX error
             st.append(ref_text_length(s) if known(s) else UI)
         elif b == 'text.prefix$':
             n = self.pop(is_int); s = self.pop(is_str)
+            if known(s) and (set(s) & TEX): self.opaque = True
             st.append(s[:max(n, 0)] if known(n) and known(s) and not (set(s) & TEX) else US)
         elif b == 'num.names$':
             s = self.pop(is_str)
@@ -285,6 +316,8 @@ def reference(cmds):
     return r
 
 def same_value(ref_v, enc, r):
+    if isinstance(ref_v, CaseOf):
+        return enc[0] == 1 and len(enc[1]) == len(ref_v.s) and S(enc[1]).lower() == ref_v.s.lower()
     if not known(ref_v): return enc[0] == (0 if ref_v is UI else 1)
     if isinstance(ref_v, int): return enc == [0, ref_v]
     if isinstance(ref_v, str): return enc[0] == 1 and S(enc[1]) == ref_v
